@@ -4,7 +4,9 @@ the Group docstring), calling the user's own equation methods.  It shares no
 code with pysph's code generator."""
 import copy
 import dis
+import ast
 import inspect
+import textwrap
 import math
 import types
 
@@ -74,6 +76,48 @@ def _declare(type_str, num=1):
     return tuple(one() for _ in range(n))
 
 
+def _vpow(a, b):
+    """`a ** b` as the transpiled code defines it: with a floating exponent
+    Cython evaluates a negative base through complex numbers and refuses the
+    result (the particle is silently left as it was), Python returns a real
+    or a complex number: no common meaning, the case is discarded."""
+    if isinstance(b, float) and isinstance(a, (int, float)) and a < 0:
+        raise PyUndefined('negative base %r ** %r' % (a, b))
+    return a ** b
+
+
+class _PowRewriter(ast.NodeTransformer):
+    def visit_BinOp(self, node):
+        self.generic_visit(node)
+        if isinstance(node.op, ast.Pow):
+            return ast.copy_location(ast.Call(
+                func=ast.Name(id='_vpow', ctx=ast.Load()),
+                args=[node.left, node.right], keywords=[]), node)
+        return node
+
+
+def _with_checked_pow(f, g):
+    """Re-compile a method from its source with `**` routed through
+    _vpow; None when that is not possible."""
+    try:
+        src = textwrap.dedent(inspect.getsource(f))
+        if '**' not in src or f.__closure__:
+            return None
+        tree = _PowRewriter().visit(ast.parse(src))
+        ast.fix_missing_locations(tree)
+        ns = {}
+        g = dict(g)
+        g['_vpow'] = _vpow
+        exec(compile(tree, '<vpow:%s>' % f.__qualname__, 'exec'), g, ns)
+        nf = ns.get(f.__name__)
+        if nf is None:
+            return None
+        nf.__defaults__ = f.__defaults__
+        return nf
+    except (OSError, TypeError, SyntaxError):
+        return None
+
+
 def rebind(func):
     """A copy of a function whose globals also know the math.h names and the
     transpiler's `declare` (the original module is not touched)."""
@@ -83,6 +127,9 @@ def rebind(func):
     g['declare'] = _declare
     for k, v in C_GLOBALS.items():
         g.setdefault(k, v)
+    nf = _with_checked_pow(f, g)
+    if nf is not None:
+        return nf
     nf = types.FunctionType(f.__code__, g, f.__name__, f.__defaults__,
                             f.__closure__)
     return nf
